@@ -106,6 +106,15 @@ class Effects:
                     if isinstance(y, ast.Starred):
                         y = y.value
                     if isinstance(y, ast.Name):
+                        # ``x = self.A`` ... ``x += more``: for a list / deque / set / dict that is an in-place change of self.A
+                        if isinstance(n, ast.AugAssign):
+                            for b in walk_no_nested(fn):
+                                if isinstance(b, ast.Assign) and len(b.targets) == 1 and isinstance(b.targets[0], ast.Name) \
+                                        and b.targets[0].id == y.id and self_attr(b.value) is not None:
+                                    ann = self.ci.ann.get(self_attr(b.value))
+                                    if ann is not None and ast.unparse(ann).split('[')[0].strip() in ('list', 'deque', 'set', 'dict', 'defaultdict', 'Counter'):
+                                        self.direct_mod[name].add(self_attr(b.value))
+                                        self.write_sites[name].append((self_attr(b.value), n))
                         continue
                     for r in storage_roots(y, aliases):
                         self.direct_mod[name].add(r)
